@@ -106,6 +106,27 @@ BrkDecoder(i) ==
               v \in { v \in Rng(DEC[r.dec]) : ~v.err /\ Rng(v.sel) # ExpSel(v.k, r) } } :
           r \in { r \in Rng(N[i].regs) : r.dc /\ ~r.fr } }
 
+(* the decoders SoCBusHandler.finalize actually handed to the interconnect it built (the harness   *)
+(* wraps the interconnect class for the duration of finalize): fds = sequence of [n, k, err, sel], *)
+(* n = the name under which the guarded slave interface was granted, sel = the probes u*k+j (first *)
+(* and last word of every unit of the real bus) the decoder accepts.  The decoder in front of a    *)
+(* slave must be the one of the region granted under the slave's name: exactly its window (every   *)
+(* address when the region's decoder is disabled).                                                 *)
+FdWant(f, r) == IF r.dc THEN ExpSel(f.k, r) ELSE 0..(AS * f.k - 1)
+BrkFinalDecoder(i) ==
+  IF ~Builds(i) THEN {} ELSE
+  LET R == N[i].regs
+      Known(f) == \E r \in Rng(R) : r.n = f.n
+      Reg(f) == CHOOSE r \in Rng(R) : r.n = f.n
+  IN  { IF ~Known(f) THEN "interconnect_decoder_in_front_of_unknown_slave"
+        ELSE IF f.err THEN "interconnect_decoder_cannot_be_evaluated"
+        ELSE IF Rng(f.sel) \subseteq FdWant(f, Reg(f)) THEN "interconnect_decoder_misses_addresses_of_its_slaves_window"
+        ELSE "interconnect_decoder_accepts_addresses_outside_its_slaves_window" :
+          f \in { f \in Rng(N[i].fds) :
+                    \/ ~Known(f)
+                    \/ f.err
+                    \/ ~Reg(f).fr /\ Rng(f.sel) # FdWant(f, Reg(f)) } }
+
 MinLen(a, b) == IF Len(a) < Len(b) THEN Len(a) ELSE Len(b)
 BrkSelectsTwo(i) ==
   LET R == N[i].regs IN
@@ -158,6 +179,7 @@ BusBroken(i) ==
   { <<"CachedOutsideIO", x>> : x \in BrkCachedIO(i) } \cup
   { <<"DecoderExact", x>> : x \in BrkDecoder(i) } \cup
   { <<"NoAddressSelectsTwo", x>> : x \in BrkSelectsTwo(i) } \cup
+  { <<"InterconnectDecoders", x>> : x \in BrkFinalDecoder(i) } \cup
   { <<"NameUnique", x>> : x \in BrkBusNames(i) } \cup
   { <<"GrantCoversRequest", x>> : x \in BrkBusGrant(i) }
 
@@ -281,6 +303,7 @@ UncachedInsideIO     == BusOK(n) \/ BrkUncachedIO(n) = {}
 CachedOutsideIO      == BusOK(n) \/ BrkCachedIO(n) = {}
 DecoderExact         == BusOK(n) \/ BrkDecoder(n) = {}
 NoAddressSelectsTwo  == BusOK(n) \/ BrkSelectsTwo(n) = {}
+InterconnectDecoders == BusOK(n) \/ BrkFinalDecoder(n) = {}
 LocUnique            == LocOK(n) \/ BrkLocUnique(n) = {}
 LocInRange           == LocOK(n) \/ BrkLocRange(n) = {}
 NameUnique           == /\ BusOK(n) \/ BrkBusNames(n) = {}
